@@ -618,6 +618,10 @@ class DataFrameSchemaBackend(PolarsSchemaBackend):
             subset = [
                 x for x in lst if x in get_lazyframe_column_names(check_obj)
             ]
+            if not subset:
+                # none of the columns is in the dataframe: nothing to compare
+                # (missing required columns are reported separately)
+                continue
             duplicates = check_obj.select(subset).collect().is_duplicated()
             if duplicates.any():
                 # materialize the failure cases and report a row-wise check
